@@ -22,6 +22,8 @@ N={
  'C09-b':("rhp/v4/server.go handleRPCSectorRoots passes only the listed window to ReviseV2Contract","a successful listing of a strict sub-range, then anything that looks at the host's roots"),
  'C10-a':("rhp/v4/rpc.go total-cost bound dropped from RPCReplenishAccounts/Pools","a host returning MORE deposits than accounts requested, each <= target, sum above target x accounts, countersigned with its real key"),
  'C10-b':("rhp/v4/rpc.go RPCReadSector derives the proof range end from the host's DataLength","a host answering with data + a valid range proof for a different range starting at the same offset and a matching DataLength"),
+ 'C12-a':("chain/manager.go History stops when the exponential spacing runs past genesis instead of clamping to genesis (cooperating with the syncer's no-common-history handling)","a deep fork whose fork height lies below the deepest sampled history entry: both nodes stay on their own branch forever"),
+ 'C12-b':("syncer/parallel_sync.go workFn selects the checkpoint path from AllowHeight instead of RequireHeight","a valid v1 block in the allow..require window that lands on a chunk base (ancestor height + k*100)"),
  'C13-a':("chain/manager.go updateV2TransactionProofs builds the created-elements map only when the block confirms a member of the set","a set whose ephemeral input's parent is NOT in the set and is confirmed by a block on the path that confirms no member of the set"),
  'C13-b':("chain/manager.go updateTxnProofs bound check <= instead of <","a path reverting at least one block and a transaction spending exactly the first element that reverted block created: panic instead of an error"),
  'C14-a':("chain/manager.go AddV2PoolTransactions rollback truncates by the position in the submitted set","one v2 submission that starts with already pooled transactions and later contains a new transaction conflicting with the pool"),
